@@ -145,7 +145,8 @@ Definition famc (n : bytes) : Prop := n = s_CURRENT \/ n = s_CURRENT_bak \/ exis
 Definition harmless (A B : fdesc) (c : bytes) : Prop :=
   forall fd, check_content c = Some fd -> fd = B \/ (fd_num fd <= fd_num A)%Z.
 
-Definition pend_ino (A B : fdesc) (x : inode) : Prop := forall sel, harmless A B (crash_data sel x).
+Definition pend_ino (A B : fdesc) (x : inode) : Prop :=
+  (forall sel, harmless A B (crash_data sel x)) /\ harmless A B (vdata x).
 
 (* pending directory operations the invariant tolerates: anything on other files as long as the files in K stay;
    on the CURRENT family: a new CURRENT.bak, a new pending file with harmless content, unlinks (not of CURRENT) *)
@@ -174,26 +175,27 @@ Record clean (s : fsys) (A B : fdesc) (K : list bytes) (i0 : N) : Prop := {
   k_pend_e : forall z i, lookup (ents s) (pend_name z) = Some i -> pend_ino A B (get_ino (inos s) i) }.
 
 (* what every crash image must satisfy for GetMeta to answer A or B *)
-Definition good (s : fsys) (A B : fdesc) : Prop :=
+Definition good (s : fsys) (A B : fdesc) (K : list bytes) : Prop :=
   forall mask, let e := image_ents mask (pdir s) (dents s) in
     (exists i, lookup e s_CURRENT = Some i /\
                forall sel, crash_data sel (get_ino (inos s) i) = meta_content A \/
                            crash_data sel (get_ino (inos s) i) = meta_content B) /\
-    has e (gen_name A) = true /\ has e (gen_name B) = true /\
+    (forall k, In k K -> has e k = true) /\
     forall z i, lookup e (pend_name z) = Some i -> pend_ino A B (get_ino (inos s) i).
 
-Theorem good_images s A B v :
-  good s A B -> (fd_num A <= fd_num B)%Z -> int64_ok (fd_num A) = true -> int64_ok (fd_num B) = true ->
+Theorem good_images s A B K v :
+  good s A B K -> In (gen_name A) K -> In (gen_name B) K ->
+  (fd_num A <= fd_num B)%Z -> int64_ok (fd_num A) = true -> int64_ok (fd_num B) = true ->
   crash_image s v -> get_meta_result v = GOk A \/ get_meta_result v = GOk B.
 Proof.
-  intros G Hle HA HB (mask & sel & ->). destruct (G mask) as ((i & Hi & Hd) & HgA & HgB & Hp).
+  intros G HKA HKB Hle HA HB (mask & sel & ->). destruct (G mask) as ((i & Hi & Hd) & Hk & Hp).
   apply get_meta_window; try assumption.
   - rewrite lookup_image_view, Hi. cbn [option_map]. destruct (Hd (sel i)) as [-> | ->]; auto.
-  - now rewrite has_image_view.
-  - now rewrite has_image_view.
+  - rewrite has_image_view. auto.
+  - rewrite has_image_view. auto.
   - intros q c fd Hq Hl Hc. apply in_pend_names in Hq. destruct Hq as (n & z & _ & _ & ->).
     rewrite lookup_image_view in Hl. destruct (lookup (image_ents mask (pdir s) (dents s)) (pend_name z)) as [j|] eqn:E; [|discriminate].
-    cbn [option_map] in Hl. inversion Hl; subst c. exact (Hp z j E (sel j) fd Hc).
+    cbn [option_map] in Hl. inversion Hl; subst c. exact (proj1 (Hp z j E) (sel j) fd Hc).
 Qed.
 
 Lemma synced_data c sel : crash_data sel (IN c c false) = c.
@@ -245,11 +247,11 @@ Qed.
 Lemma clean_Jinv s A B K i0 : clean s A B K i0 -> Jinv A B K (inos s) i0 (dents s).
 Proof. intros C. split; [apply C|]. split; [apply C|apply C]. Qed.
 
-Theorem clean_good s A B K i0 : clean s A B K i0 -> In (gen_name A) K -> In (gen_name B) K -> good s A B.
+Theorem clean_good s A B K i0 : clean s A B K i0 -> good s A B K.
 Proof.
-  intros C HA HB mask. cbn zeta.
+  intros C mask. cbn zeta.
   destruct (Jinv_image A B K (inos s) i0 (pdir s) mask (dents s) (k_ops _ _ _ _ _ C) (clean_Jinv _ _ _ _ _ C)) as (Hc & Hk & Hp).
-  split; [|split; [auto|split; [auto|exact Hp]]].
+  split; [|split; [exact Hk|exact Hp]].
   exists i0. split; [exact Hc|]. intro sel. left. rewrite (k_cur_i _ _ _ _ _ C). apply synced_data.
 Qed.
 
@@ -270,11 +272,11 @@ Lemma harmless_nil A B : harmless A B [].
 Proof. intros fd H. discriminate. Qed.
 
 Lemma pend_ino_fresh A B : pend_ino A B (IN [] [] false).
-Proof. intros [k|]; cbn; [destruct k|]; apply harmless_nil. Qed.
+Proof. split; [intros [k|]; cbn; [destruct k|]; apply harmless_nil|apply harmless_nil]. Qed.
 
 Lemma pend_ino_trunc A B x : pend_ino A B x -> pend_ino A B (IN [] (ddata x) true).
 Proof.
-  intros H [k|]; cbn [crash_data itrunc ddata vdata orb].
+  intros [H _]. split; [|apply harmless_nil]. intros [k|]; cbn [crash_data itrunc ddata vdata orb].
   - rewrite firstn_nil. apply harmless_nil.
   - exact (H None).
 Qed.
@@ -282,15 +284,20 @@ Qed.
 Lemma pend_ino_write A B x : pend_ino A B x -> vdata x = [] -> int64_ok (fd_num B) = true ->
   pend_ino A B (IN (vdata x ++ meta_content B) (ddata x) (itrunc x)).
 Proof.
-  intros H Hv Hi [k|]; cbn [crash_data itrunc ddata vdata].
-  - rewrite Hv. cbn [app]. destruct (itrunc x || (length (ddata x) <=? k)%nat).
-    + intros fd Hc. left. now apply (check_prefix B k).
+  intros [H _] Hv Hi. split.
+  - intros [k|]; cbn [crash_data itrunc ddata vdata].
+    + rewrite Hv. cbn [app]. destruct (itrunc x || (length (ddata x) <=? k)%nat).
+      * intros fd Hc. left. now apply (check_prefix B k).
+      * exact (H None).
     + exact (H None).
-  - exact (H None).
+  - cbn [vdata]. rewrite Hv. cbn [app]. intros fd Hc. left. rewrite check_meta_content in Hc by assumption. congruence.
 Qed.
 
 Lemma pend_ino_synced A B : int64_ok (fd_num B) = true -> pend_ino A B (IN (meta_content B) (meta_content B) false).
-Proof. intros Hi sel fd. rewrite synced_data, check_meta_content by assumption. intro H. left. congruence. Qed.
+Proof.
+  intros Hi. split; [intros sel fd; rewrite synced_data|intro fd; cbn [vdata]];
+    rewrite check_meta_content by assumption; intro H; left; congruence.
+Qed.
 
 Definition upd (s : fsys) (i : N) (x : inode) : fsys := FS (ents s) (dents s) (pdir s) (set_ino (inos s) i x) (next s).
 
@@ -475,11 +482,11 @@ Qed.
 
 (* after the rename, before the directory is synced: CURRENT is the old or the new file *)
 Lemma rename_good s A B K i0 z j :
-  clean s A B K i0 -> In (gen_name A) K -> In (gen_name B) K ->
+  clean s A B K i0 ->
   lookup (ents s) (pend_name z) = Some j -> get_ino (inos s) j = IN (meta_content B) (meta_content B) false ->
-  good (fapply s (ORename (pend_name z) s_CURRENT)) A B.
+  good (fapply s (ORename (pend_name z) s_CURRENT)) A B K.
 Proof.
-  intros C HA HB E Hj mask. cbn [fapply]. rewrite E. cbn [pdir dents inos]. cbn zeta.
+  intros C E Hj mask. cbn [fapply]. rewrite E. cbn [pdir dents inos]. cbn zeta.
   destruct (image_ents_split (pdir s) [DRename (pend_name z) s_CURRENT j] mask (dents s)) as (m1 & m2 & ->).
   destruct (Jinv_image A B K (inos s) i0 (pdir s) m1 (dents s) (k_ops _ _ _ _ _ C) (clean_Jinv _ _ _ _ _ C)) as (Hc & Hk & Hp).
   set (e := image_ents m1 (pdir s) (dents s)) in *.
@@ -487,21 +494,22 @@ Proof.
     by (intro sel; rewrite (k_cur_i _ _ _ _ _ C); apply synced_data).
   destruct m2 as [|[|] m2]; cbn [image_ents dapply].
   - split; [exists i0; split; [exact Hc|intro; left; apply Hd0]|]. auto.
-  - split; [|split; [|split]].
+  - split; [|split].
     + exists j. split; [now rewrite lookup_set_at, beq_refl|]. intro sel. right. rewrite Hj. apply synced_data.
-    + apply has_lookup. rewrite lookup_set_at. destruct (beq s_CURRENT (gen_name A)); [discriminate|].
+    + intros k HK. apply has_lookup. rewrite lookup_set_at. destruct (beq s_CURRENT k); [discriminate|].
       rewrite lookup_remove_at, beq_neq; [apply has_lookup; auto|].
-      intro X. apply (k_Knf _ _ _ _ _ C _ HA). right. right. eauto.
-    + apply has_lookup. rewrite lookup_set_at. destruct (beq s_CURRENT (gen_name B)); [discriminate|].
-      rewrite lookup_remove_at, beq_neq; [apply has_lookup; auto|].
-      intro X. apply (k_Knf _ _ _ _ _ C _ HB). right. right. eauto.
+      intro X. apply (k_Knf _ _ _ _ _ C _ HK). right. right. eauto.
     + intros z' i. rewrite lookup_set_at, (beq_neq s_CURRENT (pend_name z')) by apply not_pend_current.
       rewrite lookup_remove_at. destruct (beq (pend_name z) (pend_name z')); [discriminate|]. apply Hp.
   - split; [exists i0; split; [exact Hc|intro; left; apply Hd0]|]. auto.
 Qed.
 
 Lemma pend_ino_settle A B x : pend_ino A B x -> (fd_num A <= fd_num B)%Z -> pend_ino B B x.
-Proof. intros H Hle sel. eapply harmless_settle; [apply H|assumption]. Qed.
+Proof.
+  intros [H1 H2] Hle. split; [intro sel|].
+  - eapply harmless_settle; [apply H1|assumption].
+  - eapply harmless_settle; [apply H2|assumption].
+Qed.
 
 (* the directory sync at the end of setMeta settles on B *)
 Lemma syncdir_clean s A B K i0 z j :
@@ -547,7 +555,7 @@ Qed.
 (* ================================================================ the switch *)
 
 Lemma pend_ino_open A B x : pend_ino A A x -> pend_ino A B x.
-Proof. intros H sel. apply harmless_open, H. Qed.
+Proof. intros [H1 H2]. split; [intro sel|]; apply harmless_open; [apply H1|apply H2]. Qed.
 
 Lemma clean_open s A B K i0 : clean s A A K i0 -> clean s A B K i0.
 Proof.
@@ -582,19 +590,16 @@ Proof.
   rewrite beq_neq; [reflexivity|]. intro E. apply Hne. now apply meta_content_inj.
 Qed.
 
-Theorem set_meta_crash_atomic s A B K i0 :
-  clean s A A K i0 -> In (gen_name A) K -> In (gen_name B) K ->
-  (fd_num A < fd_num B)%Z -> int64_ok (fd_num A) = true -> int64_ok (fd_num B) = true ->
-  (forall k v, crash_image (fapply_all s (firstn k (set_meta_ops (vol_view s) B))) v ->
+(* the eight operations, from a directory whose CURRENT holds A and whose pending files are harmless for (A, B) *)
+Lemma switch_safe s A B K i0 :
+  clean s A B K i0 -> In (gen_name A) K -> In (gen_name B) K ->
+  (fd_num A <= fd_num B)%Z -> int64_ok (fd_num A) = true -> int64_ok (fd_num B) = true ->
+  (forall k v, crash_image (fapply_all s (firstn k (switch_ops A B))) v ->
                get_meta_result v = GOk A \/ get_meta_result v = GOk B) /\
-  (exists j, clean (set_meta s B) B B K j) /\
-  (forall v, crash_image (set_meta s B) v -> get_meta_result v = GOk B).
+  (exists j, clean (fapply_all s (switch_ops A B)) B B K j) /\
+  (forall v, crash_image (fapply_all s (switch_ops A B)) v -> get_meta_result v = GOk B).
 Proof.
-  intros C0 HKA HKB Hlt HiA HiB.
-  assert (A <> B) as Hne by (intro X; subst; lia).
-  assert (fd_num A <= fd_num B)%Z as Hle by lia.
-  unfold set_meta. rewrite (set_meta_ops_switch _ _ _ _ _ C0 HiA HiB Hne).
-  pose proof (clean_open _ _ B _ _ C0) as C.
+  intros C HKA HKB Hle HiA HiB.
   set (p := fd_num B).
   (* the states *)
   destruct (bak_create _ _ _ _ _ C) as (C1 & ib & E1). set (s1 := fapply s (OCreate s_CURRENT_bak)) in *.
@@ -603,13 +608,13 @@ Proof.
   destruct (p_create _ _ _ _ _ p C3) as (j & C4 & E4 & V4). set (s4 := fapply s3 (OCreate (pend_name p))) in *.
   destruct (p_write _ _ _ _ _ p j C4 HiB E4 V4) as (C5 & E5 & V5). set (s5 := fapply s4 (OWrite (pend_name p) (meta_content B))) in *.
   destruct (p_fsync _ _ _ _ _ p j C5 HiB E5 V5) as (C6 & E6 & V6). set (s6 := fapply s5 (OFsync (pend_name p))) in *.
-  pose proof (rename_good _ _ _ _ _ p j C6 HKA HKB E6 V6) as G7. set (s7 := fapply s6 (ORename (pend_name p) s_CURRENT)) in *.
+  pose proof (rename_good _ _ _ _ _ p j C6 E6 V6) as G7. set (s7 := fapply s6 (ORename (pend_name p) s_CURRENT)) in *.
   pose proof (syncdir_clean _ _ _ _ _ p j C6 Hle E6 V6) as C8. fold s7 in C8. set (s8 := fapply s7 OSyncDir) in *.
   assert (forall t, clean t A B K i0 -> forall v, crash_image t v -> get_meta_result v = GOk A \/ get_meta_result v = GOk B) as HG.
-  { intros t Ct v Hv. eapply good_images; [eapply clean_good; eassumption| | | |]; eassumption. }
+  { intros t Ct v Hv. eapply good_images; [eapply clean_good; eassumption| | | | | |]; eassumption. }
   assert (forall v, crash_image s8 v -> get_meta_result v = GOk B) as H8.
-  { intros v Hv. assert (good s8 B B) as G by (eapply clean_good; eassumption).
-    destruct (good_images _ _ _ _ G (Z.le_refl _) HiB HiB Hv); assumption. }
+  { intros v Hv. assert (good s8 B B K) as G by (eapply clean_good; eassumption).
+    destruct (good_images _ _ _ _ _ G HKB HKB (Z.le_refl _) HiB HiB Hv); assumption. }
   assert (fapply_all s (switch_ops A B) = s8) as Hall by reflexivity.
   split; [|split].
   - intros k v. unfold switch_ops.
@@ -625,4 +630,128 @@ Proof.
     + rewrite firstn_nil. cbn [fold_left]. intro Hv. right. now apply H8.
   - exists j. rewrite Hall. exact C8.
   - rewrite Hall. exact H8.
+Qed.
+
+Lemma set_meta_ops_switch' s A B K i0 : clean s A B K i0 ->
+  int64_ok (fd_num A) = true -> int64_ok (fd_num B) = true -> A <> B ->
+  set_meta_ops (vol_view s) B = switch_ops A B.
+Proof.
+  intros C HA HB Hne. unfold set_meta_ops. rewrite (vol_cur _ _ _ _ _ C).
+  rewrite beq_neq; [reflexivity|]. intro E. apply Hne. now apply meta_content_inj.
+Qed.
+
+(* setMeta(B) from a settled directory on A *)
+Theorem set_meta_crash_atomic s A B K i0 :
+  clean s A A K i0 -> In (gen_name A) K -> In (gen_name B) K ->
+  (fd_num A < fd_num B)%Z -> int64_ok (fd_num A) = true -> int64_ok (fd_num B) = true ->
+  (forall k v, crash_image (fapply_all s (firstn k (set_meta_ops (vol_view s) B))) v ->
+               get_meta_result v = GOk A \/ get_meta_result v = GOk B) /\
+  (exists j, clean (set_meta s B) B B K j) /\
+  (forall v, crash_image (set_meta s B) v -> get_meta_result v = GOk B).
+Proof.
+  intros C0 HKA HKB Hlt HiA HiB.
+  assert (A <> B) as Hne by (intro X; subst; lia).
+  unfold set_meta. rewrite (set_meta_ops_switch _ _ _ _ _ C0 HiA HiB Hne).
+  apply (switch_safe s A B K i0); try assumption; [now apply clean_open|lia].
+Qed.
+
+(* ================================================================ after the crash: the restarted machine *)
+
+(* the same invariant, on a plain directory *)
+Definition cleanv (v : view) (A B : fdesc) (K : list bytes) : Prop :=
+  lookup v s_CURRENT = Some (meta_content A) /\ (forall k, In k K -> has v k = true) /\
+  (forall k, In k K -> ~ famc k) /\
+  forall z c, lookup v (pend_name z) = Some c -> harmless A B c.
+
+Lemma fs_of_view_from_spec v : forall s0,
+  let e := fst (fs_of_view_from v s0) in let t := snd (fs_of_view_from v s0) in
+  (forall n i, lookup e n = Some i -> s0 <= i < s0 + N.of_nat (length v) /\
+                                       exists c, lookup v n = Some c /\ get_ino t i = IN c c false) /\
+  (forall n c, lookup v n = Some c -> exists i, lookup e n = Some i) /\
+  (forall n m i, lookup e n = Some i -> lookup e m = Some i -> n = m).
+Proof.
+  induction v as [|[k c] v IH]; intro s0; cbn zeta.
+  - cbn. repeat split; intros; discriminate.
+  - cbn [fs_of_view_from]. specialize (IH (s0 + 1)). cbn zeta in IH.
+    destruct (fs_of_view_from v (s0 + 1)) as [e t]. cbn [fst snd] in *. destruct IH as (I1 & I2 & I3).
+    split; [|split].
+    + intros n i. cbn [lookup length]. beq_case' k n.
+      * intro H. inversion H; subst i. split; [lia|]. exists c. split; [reflexivity|]. cbn [get_ino]. now rewrite N.eqb_refl.
+      * intro H. destruct (I1 _ _ H) as (Hb & c' & Hc & Hg). split; [lia|]. exists c'. split; [assumption|].
+        cbn [get_ino]. now rewrite (proj2 (N.eqb_neq s0 i)) by lia.
+    + intros n c'. cbn [lookup]. destruct (beq k n); [eauto|]. apply I2.
+    + intros n m i. cbn [lookup]. beq_case' k n; beq_case' k m; intros H1 H2; try congruence.
+      * inversion H1; subst i. apply I1 in H2. lia.
+      * inversion H2; subst i. apply I1 in H1. lia.
+      * eapply I3; eassumption.
+Qed.
+
+Theorem restart_clean v A B K : cleanv v A B K -> exists i0, clean (fs_of_view v) A B K i0.
+Proof.
+  intros (Hc & Hk & Hnf & Hp). unfold fs_of_view.
+  pose proof (fs_of_view_from_spec v 0) as S. cbn zeta in S.
+  destruct (fs_of_view_from v 0) as [e t]. cbn [fst snd] in S. destruct S as (S1 & S2 & S3).
+  destruct (S2 _ _ Hc) as (i0 & Hi0). exists i0.
+  assert (forall n i c, lookup e n = Some i -> lookup v n = Some c -> get_ino t i = IN c c false) as Hg.
+  { intros n i c Hl Hv. destruct (S1 _ _ Hl) as (_ & c' & Hc' & Hg). congruence. }
+  assert (forall c, harmless A B c -> pend_ino A B (IN c c false)) as Hsyn.
+  { intros c H. split; [intro sel; now rewrite synced_data|exact H]. }
+  constructor; cbn [ents dents pdir inos next].
+  - exact S3.
+  - intros n i H. apply S1 in H. lia.
+  - intros n i H. apply S1 in H. lia.
+  - intros n i [].
+  - intros n i Hn Hl. split; [|intros z []]. intros z Hz. apply (Hn z). eapply S3; eassumption.
+  - constructor.
+  - exact Hi0.
+  - exact Hi0.
+  - eapply Hg; eassumption.
+  - intros k Hin. apply has_lookup. apply Hk, has_lookup in Hin. destruct (lookup v k) as [c|] eqn:E; [|congruence].
+    destruct (S2 _ _ E) as (i & ->). discriminate.
+  - intros k Hin. apply has_lookup. apply Hk, has_lookup in Hin. destruct (lookup v k) as [c|] eqn:E; [|congruence].
+    destruct (S2 _ _ E) as (i & ->). discriminate.
+  - exact Hnf.
+  - intros z i H. destruct (S1 _ _ H) as (_ & c & Hc' & ->). apply Hsyn. eapply Hp; eassumption.
+  - intros z i H. destruct (S1 _ _ H) as (_ & c & Hc' & ->). apply Hsyn. eapply Hp; eassumption.
+Qed.
+
+(* every crash image of a good state is a clean directory: still on A, or already on B *)
+Theorem good_cleanv s A B K v :
+  good s A B K -> (fd_num A <= fd_num B)%Z -> (forall k, In k K -> ~ famc k) -> crash_image s v ->
+  cleanv v A B K \/ cleanv v B B K.
+Proof.
+  intros G Hle Hnf (mask & sel & ->). destruct (G mask) as ((i & Hi & Hd) & Hk & Hp).
+  assert (forall z c, lookup (image_view mask sel s) (pend_name z) = Some c -> harmless A B c) as Hh.
+  { intros z c. rewrite lookup_image_view.
+    destruct (lookup (image_ents mask (pdir s) (dents s)) (pend_name z)) as [j|] eqn:E; [|discriminate].
+    cbn [option_map]. intro H. inversion H. apply (proj1 (Hp z j E)). }
+  assert (forall k, In k K -> has (image_view mask sel s) k = true) as Hk' by (intros k Hin; rewrite has_image_view; auto).
+  destruct (Hd (sel i)) as [E|E]; [left|right]; (split; [rewrite lookup_image_view, Hi; cbn [option_map]; now rewrite E|]);
+    (split; [exact Hk'|split; [exact Hnf|]]).
+  - exact Hh.
+  - intros z c H. eapply harmless_settle; [eapply Hh; eassumption|assumption].
+Qed.
+
+Corollary clean_image_cleanv s A B K i0 v : clean s A B K i0 -> (fd_num A <= fd_num B)%Z -> crash_image s v ->
+  cleanv v A B K.
+Proof.
+  intros C Hle (mask & sel & ->).
+  destruct (Jinv_image A B K (inos s) i0 (pdir s) mask (dents s) (k_ops _ _ _ _ _ C) (clean_Jinv _ _ _ _ _ C)) as (Hc & Hk & Hp).
+  split; [|split; [|split]].
+  - rewrite lookup_image_view, Hc. cbn [option_map]. now rewrite (k_cur_i _ _ _ _ _ C), synced_data.
+  - intros k Hin. rewrite has_image_view. auto.
+  - apply C.
+  - intros z c. rewrite lookup_image_view.
+    destruct (lookup (image_ents mask (pdir s) (dents s)) (pend_name z)) as [j|] eqn:E; [|discriminate].
+    cbn [option_map]. intro H. inversion H. apply (proj1 (Hp z j E)).
+Qed.
+
+(* a settled directory stays settled across any number of crashes and restarts *)
+Theorem settled_across_crashes s A K i0 v :
+  clean s A A K i0 -> In (gen_name A) K -> int64_ok (fd_num A) = true -> crash_image s v ->
+  get_meta_result v = GOk A /\ exists i1, clean (fs_of_view v) A A K i1.
+Proof.
+  intros C HK Hi Hv. split.
+  - destruct (good_images _ _ _ _ _ (clean_good _ _ _ _ _ C) HK HK (Z.le_refl _) Hi Hi Hv); assumption.
+  - apply restart_clean. eapply clean_image_cleanv; [eassumption|lia|assumption].
 Qed.
